@@ -958,9 +958,10 @@ static std::string invertOperatorForOperandSwap(std::string s)
     return s;
 }
 
+// the sign of a - b without computing the difference (which overflows for integers far apart)
 template<typename T>
-static int sign(const T v) {
-    return static_cast<int>(v > 0) - static_cast<int>(v < 0);
+static int compareValues(const T a, const T b) {
+    return static_cast<int>(a > b) - static_cast<int>(a < b);
 }
 
 // returns 1 (-1) if the first (second) condition is sufficient, 0 if indeterminate
@@ -989,9 +990,9 @@ static int sufficientCondition(std::string op1, const bool not1, const T value1,
     if (op1 == op2) {
         equal = true;
         if (op1 == ">" || op1 == ">=")
-            res = sign(value1 - value2);
+            res = compareValues(value1, value2);
         else if (op1 == "<" || op1 == "<=")
-            res = -sign(value1 - value2);
+            res = -compareValues(value1, value2);
     } else { // not equal
         if (op1 == "!=")
             res = 1;
@@ -1003,13 +1004,13 @@ static int sufficientCondition(std::string op1, const bool not1, const T value1,
             res = 1;
         // in this branch a positive result says that the first condition is the weaker one
         else if (op1 == ">" && op2 == ">=")
-            res = -sign(value1 - (value2 - 1));
+            res = -((value1 >= value2) ? 1 : compareValues(value1 + 1, value2));
         else if (op1 == ">=" && op2 == ">")
-            res = -sign((value1 - 1) - value2);
+            res = -((value1 <= value2) ? -1 : compareValues(value1 - 1, value2));
         else if (op1 == "<" && op2 == "<=")
-            res = sign(value1 - (value2 + 1));
+            res = (value1 <= value2) ? -1 : compareValues(value1 - 1, value2);
         else if (op1 == "<=" && op2 == "<")
-            res = sign((value1 + 1) - value2);
+            res = (value1 >= value2) ? 1 : compareValues(value1 + 1, value2);
     }
     return res * (isAnd == equal ? 1 : -1);
 }
